@@ -213,6 +213,12 @@ func (it *TxnIterator) advance() {
 			it.iitr.Next()
 			continue
 		}
+		// Bookkeeping the engine stores in the user keyspace (the value-log discard
+		// statistics) is not part of anyone's snapshot.
+		if !it.opt.InternalAccess && bytes.HasPrefix(userKey, internalKeyPrefix) {
+			it.iitr.Next()
+			continue
+		}
 		version := kv.ParseTs(entry.Key)
 		if version > it.readTs {
 			it.iitr.Next()
